@@ -12,6 +12,8 @@ CHECKS = {
          'Every sorted-set reply of the explored histories agrees with the (score, member) order derived in the spec; the skip list is structurally checked after every mutation; the order laws are model-checked on a bounded instance.'),
  'C07': ('model_checking', 'TLC model checking of all interleavings of 2 connections over the transaction catalogue (MC_Txn) + generated tests + concurrent client threads ordered by the server-side command log + TLC trace validation',
          'EXEC is one atomic step of the spec; every reply of concurrently running clients must be explained by the sequential spec in the logged execution order, so an interleaving inside EXEC, a lost slot or reordering is rejected.'),
+ 'C14': ('model_checking', 'TLC model checking of pub/sub (MC_PubSub: exactly-once per subscription, ack counts) + generated tests and seeded multi-client histories on the real server + TLC trace validation of every ack, PUBLISH count and push frame',
+         'Every acknowledgement, PUBLISH count and push frame of the explored histories is matched against the per-subscriber inbox of the spec; a final quiesce requires that nothing owed is missing.'),
 }
 NOT_YET = {}
 
